@@ -23,8 +23,6 @@ structure Inv (s : State) : Prop where
   y : s.y < 16
   ram : ∀ i (h : i < 64), s.ram[i] < 16
 
-theorem toNat_lt_of_lt {w : Nat} (a b : BitVec w) (h : a < b) : a.toNat < b.toNat := BitVec.lt_def.mp h
-
 theorem xy_lt (x y : BitVec 8) (hx : x < 4) (hy : y < 16) : (((z x <<< 4) ||| z y) : BitVec 32).toNat < 64 := by
   have : ((z x <<< 4) ||| z y : BitVec 32) < 64 := by unfold z; bv_decide
   exact toNat_lt_of_lt _ _ this
